@@ -49,11 +49,15 @@ func checkC02(r *Run) { genericGuards(r) }
 func checkC04(r *Run) {
 	genericGuards(r)
 	checkBlame(r, protoScope, 95)
+	checkBytesCoverage(r, "C04.T2", protoScope, 2)
 }
 func checkC05(r *Run) { genericGuards(r) }
 func checkC06(r *Run) { genericGuards(r) }
 func checkC07(r *Run) {}
-func checkC08(r *Run) { genericGuards(r) }
+func checkC08(r *Run) {
+	genericGuards(r)
+	checkBytesCoverage(r, "C08.T1", Scope{Include: []string{"pkg/proofs/"}}, 40)
+}
 func checkC09(r *Run) { genericGuards(r) }
 func checkC10(r *Run) { genericGuards(r) }
 func checkC13(r *Run) { genericGuards(r) }
